@@ -154,6 +154,25 @@ fn main() {
                 rep.wall_s
             );
         }
+        "scale-times" => {
+            // ad-hoc: time every scale input under one property's oracle
+            let prop: &'static str = Box::leak(args.get(2).cloned().unwrap_or_else(|| "C02".into()).into_boxed_str());
+            let items = props::scale_inputs(spaces::Tier::Quick);
+            for it in &items {
+                let mut buf = String::new();
+                props::make_scale_pub(it, &mut buf);
+                let t0 = std::time::Instant::now();
+                let oc = view::run_lexer(&buf);
+                let t1 = t0.elapsed().as_secs_f64();
+                drop(oc);
+                let t0 = std::time::Instant::now();
+                let _ = props::check_one(prop, &buf, None);
+                let t2 = t0.elapsed().as_secs_f64();
+                if t2 > 0.2 {
+                    println!("{:?} x{} bytes={} lex={:.2}s lex+oracle={:.2}s", it.0, it.1, buf.len(), t1, t2);
+                }
+            }
+        }
         "replay" => {
             let prop = arg_value(&args, "--property").expect("--property");
             let input = match arg_value(&args, "--input-file") {
@@ -184,7 +203,7 @@ fn main() {
                 }
             }
         }
-        "digest" | "digest-chunk" | "digest-list" | "history-inputs" | "history" => digest::main(&args),
+        "digest" | "digest-chunk" | "digest-list" | "history-inputs" | "scale-inputs" | "history" => digest::main(&args),
         "sched" => sched::main(&args),
         "enums" => {
             use strum::IntoEnumIterator;
